@@ -192,6 +192,11 @@ func c01R10(p *core.Program, r *core.Report, w *core.Func) {
 				if rcv := recvOf(x); rcv != nil && isBody(rcv) {
 					n++
 					sel := ast.Unparen(x.Fun).(*ast.SelectorExpr)
+					if sel.Sel.Name == "WriteTo" && inWriter {
+						// body.WriteTo(dst) in the file writer is io.Copy(dst, body): the one consumer
+						r.OK(rule, f, "the body buffer is consumed by the file writer only: "+core.ExprStr(x.Fun), x.Pos(), "WriteTo in the writer is the final read")
+						return true
+					}
 					r.Check(!bodyShrinkers[sel.Sel.Name], rule, f, "the body buffer only grows: "+core.ExprStr(x.Fun), x.Pos(), "not a method that removes or consumes bytes",
 						"`"+core.ExprStr(x)+"` removes bytes from the body of the file: declarations a generator rendered do not reach the written file although Execute succeeds")
 					return true
